@@ -511,6 +511,160 @@ def translate_pred(src, ty, fn, atoms):
         return None
 
 
+# ------------------------------------------------------------------------------------------------------------
+# Translator for the response builder: `Response::new` and the public setters (`set_body`, `set_content_type`,
+# `set_deprecation`, `set_encoding`, `set_server`, `set_allow`, `allow_method`, `set_content_length`), including
+# the `ResponseHeaders` setters they call, become Lean functions over the model's `Response` record. Understood:
+# `self.<field> = e;`, `self.headers.<field> = e;`, `self.headers.<setter>(args);`, `self.headers.allow.push(x);`
+# with e ::= parameter | Some(e) | x.len() as i32 | String::from(x) | true | false. Anything else → `none`.
+
+STATUS_LEAN = {"Continue": "continue_", "OK": "ok", "NoContent": "noContent", "BadRequest": "badRequest",
+               "Unauthorized": "unauthorized", "NotFound": "notFound", "MethodNotAllowed": "methodNotAllowed",
+               "PayloadTooLarge": "payloadTooLarge", "InternalServerError": "internalServerError",
+               "NotImplemented": "notImplemented", "ServiceUnavailable": "serviceUnavailable"}
+MEDIA_LEAN = {"PlainText": "plainText", "ApplicationJson": "applicationJson"}
+RESP_FIELD = {"content_length": "contentLength", "content_type": "contentType", "deprecation": "deprecation",
+              "server": "server", "allow": "allow", "accept_encoding": "acceptEncoding", "body": "body"}
+
+
+def fn_params(src, ty, fn):
+    for b in impl_blocks(src, ty):
+        m = re.search(r"\bfn\s+" + re.escape(fn) + r"\s*\(\s*&mut\s+self\s*,?([^)]*)\)", b)
+        if m:
+            return [x.split(":")[0].strip() for x in m.group(1).split(",") if x.strip()]
+    return None
+
+
+def tr_val(e, env):
+    e = e.strip()
+    if e in env:
+        return env[e]
+    if e in ("true", "false"):
+        return e
+    m = re.fullmatch(r"Some\((.*)\)", e, flags=re.S)
+    if m:
+        return f"(some {tr_val(m.group(1), env)})"
+    m = re.fullmatch(r"(\w+)\.len\(\)\s+as\s+i32", e)
+    if m and m.group(1) in env:
+        return f"(asI32 {env[m.group(1)]}.length)"
+    m = re.fullmatch(r"String::from\(\s*(\w+)\s*\)", e)
+    if m and m.group(1) in env:
+        return env[m.group(1)]
+    raise Unparsed("value " + e)
+
+
+def tr_setter(resp, ty, fn, args, depth=0):
+    """list of (lean field, lean value) updates, in order; `args` = Lean terms for the parameters"""
+    if depth > 3:
+        raise Unparsed("setter recursion")
+    params, body = fn_params(resp, ty, fn), fn_body(resp, ty, fn)
+    if params is None or body is None or len(params) != len(args):
+        raise Unparsed(f"setter {ty}::{fn}")
+    env = dict(zip(params, args))
+    ups = []
+    for st in split_stmts(body.strip()[1:-1]):
+        st = st.strip()
+        m = re.fullmatch(r"self\.headers\.(\w+)\((.*)\);", st, flags=re.S)
+        if m and ty == "Response":
+            inner = [tr_val(a, env) for a in m.group(2).split(",") if a.strip()] if m.group(2).strip() else []
+            if m.group(1) == "push":
+                raise Unparsed(st)
+            ups += tr_setter(resp, "ResponseHeaders", m.group(1), inner, depth + 1)
+            continue
+        m = re.fullmatch(r"self\.(?:headers\.)?allow\.push\(\s*(\w+)\s*\);", st)
+        if m and m.group(1) in env:
+            ups.append(("allow", f"(r.allow ++ [{env[m.group(1)]}])"))
+            continue
+        m = re.fullmatch(r"self\.(headers\.)?(\w+)\s*=\s*(.*);", st, flags=re.S)
+        if m and m.group(2) in RESP_FIELD and ((ty == "Response") == (bool(m.group(1)) or m.group(2) == "body")):
+            ups.append((RESP_FIELD[m.group(2)], tr_val(m.group(3), env)))
+            continue
+        raise Unparsed("setter statement " + st)
+    return ups
+
+
+BUILD_OPS = [("setBody", "set_body", ["b"]), ("setContentType", "set_content_type", ["m"]), ("setDeprecation", "set_deprecation", []),
+             ("setEncoding", "set_encoding", []), ("setServer", "set_server", ["s"]), ("setAllow", "set_allow", ["ms"]),
+             ("allowMethod", "allow_method", ["m"]), ("setContentLength", "set_content_length", ["n"])]
+
+
+def translate_builder(resp):
+    try:
+        arms = []
+        for ctor, fn, vars_ in BUILD_OPS:
+            ups = tr_setter(resp, "Response", fn, vars_)
+            term = "r"
+            for f, v in reversed(ups):
+                term = f"(let r := {{ r with {f} := {v} }}; {term})"
+            arms.append(f"    | .{ctor}{''.join(' ' + v for v in vars_)} => {term}")
+        return "fun r op => match op with\n" + "\n".join(arms), None
+    except Unparsed as e:
+        return None, str(e)
+
+
+def translate_new(resp, headers):
+    """`Response::new` with `..Default::default()` resolved through `impl Default for ResponseHeaders`"""
+    try:
+        body = fn_body(resp, "Response", "new")
+        if body is None:
+            raise Unparsed("Response::new")
+        m = re.search(r"content_length\s*:\s*match\s+status_code\s*\{(.*?)\}\s*,", body, flags=re.S)
+        if not m or "..Default::default()" not in body or not re.search(r"\bbody\s*:\s*(Default::default\(\)|None)", body):
+            raise Unparsed("Response::new shape")
+        if not re.search(r"StatusLine::new\(\s*http_version\s*,\s*status_code\s*\)", body):
+            raise Unparsed("status line")
+        arms = []
+        for am in re.finditer(r"([\w:|\s]+?)\s*=>\s*(None|Some\(\s*(\d+)\s*\))\s*,", m.group(1)):
+            pats = [x.strip() for x in am.group(1).split("|")]
+            val = "none" if am.group(2) == "None" else f"some {am.group(3)}"
+            lp = []
+            for p_ in pats:
+                if p_ == "_":
+                    lp.append("_")
+                else:
+                    mm = re.fullmatch(r"StatusCode::(\w+)", p_)
+                    if not mm or mm.group(1) not in STATUS_LEAN:
+                        raise Unparsed("status pattern " + p_)
+                    lp.append("." + STATUS_LEAN[mm.group(1)])
+            arms.append("| " + " | ".join(lp) + " => " + val)
+        if not arms:
+            raise Unparsed("no arms")
+        dm = re.search(r"impl\s+Default\s+for\s+ResponseHeaders\s*\{", resp)
+        dbody = block_after(resp, dm.start()) if dm else None
+        if dbody is None:
+            raise Unparsed("Default for ResponseHeaders")
+        fields = {}
+        for fm in re.finditer(r"\b(\w+)\s*:\s*(Default::default\(\)|false|true|Vec::new\(\)|String::from\(\s*" + STR + r"\s*\))\s*,", dbody):
+            fields[fm.group(1)] = (fm.group(2), fm.group(3))
+        need = ["content_type", "deprecation", "server", "allow", "accept_encoding"]
+        if any(f not in fields for f in need):
+            raise Unparsed("default fields")
+        md = re.search(r"impl\s+Default\s+for\s+MediaType\s*\{", headers)
+        mb = block_after(headers, md.start()) if md else None
+        mm = re.search(r"Self::(\w+)", mb or "")
+        if not mm or mm.group(1) not in MEDIA_LEAN:
+            raise Unparsed("Default for MediaType")
+
+        def val(f):
+            t, lit = fields[f]
+            if f == "content_type":
+                if t != "Default::default()":
+                    raise Unparsed("content_type default")
+                return "." + MEDIA_LEAN[mm.group(1)]
+            if t in ("true", "false"):
+                return t
+            if t == "Vec::new()":
+                return "[]"
+            if t.startswith("String::from"):
+                return lean_bytes(unescape(lit))
+            raise Unparsed("default of " + f)
+        return ("fun v s => { version := v, status := s, contentLength := (match s with " + " ".join(arms) + "), "
+                f"contentType := {val('content_type')}, deprecation := {val('deprecation')}, server := {val('server')}, "
+                f"allow := {val('allow')}, acceptEncoding := {val('accept_encoding')}, body := none }}"), None
+    except Unparsed as e:
+        return None, str(e)
+
+
 def main():
     conn, srv, common, headers, resp, req = (read(x) for x in
                                              ("connection.rs", "server.rs", "common/mod.rs", "common/headers.rs", "response.rs", "request.rs"))
@@ -617,6 +771,12 @@ def main():
         lines.append("def responseWriter : Option (Response → List (List UInt8)) :=\n  some fun r => " + writer)
     else:
         lines.append("def responseWriter : Option (Response → List (List UInt8)) := none")
+    rb, why_b = translate_builder(resp)
+    rn, why_n = translate_new(resp, headers)
+    for name, ty, term, why_ in (("responseApply", "Response → BuildOp → Response", rb, why_b), ("responseNew", "Version → StatusCode → Response", rn, why_n)):
+        summary[name] = "ok" if term else "unparsed: " + str(why_)
+        lines.append("")
+        lines.append(f"def {name} : Option ({ty}) := " + (f"some ({term})" if term else "none"))
     for name, ty, var, body in preds:
         summary[name] = "ok" if body else "unparsed"
         lines.append("")
